@@ -41,6 +41,9 @@ class _Continue(Exception):
     pass
 
 
+_PURE_BUILTINS = {"int": int, "float": float, "str": str, "len": len, "bool": bool, "min": min, "max": max, "abs": abs, "round": round, "list": list, "tuple": tuple, "bytes": bytes}
+
+
 class Obj:
     """A witness object: attribute loads / stores on it are interpreted (`self.value = ...`)."""
 
@@ -113,6 +116,23 @@ class Interp:
                             if p_ not in env2:
                                 env2[p_] = self.ev(d_, {}, depth)
                         return self.call(fi.node, env2, depth + 1)
+        if isinstance(e, ast.Call) and isinstance(e.func, ast.Name) and e.func.id == "isinstance" and len(e.args) == 2 and "isinstance" not in env:
+            kinds = {"str": (str,), "bytes": (bytes,), "bytearray": (bytearray,), "int": (int,), "float": (float,), "bool": (bool,), "list": (list,), "tuple": (tuple,), "dict": (dict,),
+                     "set": (set, frozenset), "Sequence": (list, tuple, str, bytes, range), "Mapping": (dict,), "Iterable": (list, tuple, str, bytes, dict, set, range)}
+            names = [ast.unparse(x).split(".")[-1] for x in (e.args[1].elts if isinstance(e.args[1], ast.Tuple) else [e.args[1]])]
+            if all(n_ in kinds for n_ in names):
+                v_ = self.ev(e.args[0], env, depth)
+                if not isinstance(v_, (Obj, ClassRef, FuncRef, Instance)):
+                    return any(isinstance(v_, kinds[n_]) for n_ in names)
+        if isinstance(e, ast.Call) and isinstance(e.func, ast.Name) and e.func.id in _PURE_BUILTINS and e.func.id not in env and not e.keywords:
+            args = [self.ev(a, env, depth) for a in e.args]
+            if all(isinstance(a, (int, float, str, bytes, bool, list, tuple, type(None))) for a in args):
+                return _PURE_BUILTINS[e.func.id](*args)
+        if isinstance(e, ast.BinOp):
+            a, b = self.ev(e.left, env, depth), self.ev(e.right, env, depth)
+            v = self.ctx.folder.eval(ast.BinOp(left=ast.Name(id="__a", ctx=ast.Load()), op=e.op, right=ast.Name(id="__b", ctx=ast.Load())), self.module, env={"__a": a, "__b": b})
+            if v is not UNKNOWN:
+                return v
         if isinstance(e, ast.IfExp):
             t = self.ev(e.test, env, depth)
             return self.ev(e.body if t else e.orelse, env, depth)
@@ -194,6 +214,8 @@ class Interp:
             elif isinstance(st, ast.Raise):
                 from .cfg import exc_name
 
+                if st.exc is None and getattr(self, "_handling", None):
+                    raise _Raise(self._handling[-1])
                 raise _Raise(exc_name(st.exc) or "?")
             elif isinstance(st, ast.Break):
                 raise _Break()
@@ -210,7 +232,11 @@ class Interp:
                         if handler_catches_all(h) or any(n_ == r.name or exc_is_subclass(r.name, n_) for n_ in names if n_):
                             if h.name:
                                 env[h.name] = f"<{r.name}>"
-                            self.block(h.body, env, depth)
+                            self._handling = getattr(self, "_handling", []) + [r.name]
+                            try:
+                                self.block(h.body, env, depth)
+                            finally:
+                                self._handling = self._handling[:-1]
                             break
                     else:
                         self.block(st.finalbody, env, depth)
